@@ -31,6 +31,17 @@ impl FromStr for MP {
     }
 }
 
+/// custom parameter whose TWO groups are non-empty at the same time: the FIRST non-empty group goes to `FromStr`
+#[derive(Debug, Parameter)]
+#[param(name = "ver", regex = r"(\d+)\.(\d+)")]
+pub struct Ver(String);
+impl FromStr for Ver {
+    type Err = String;
+    fn from_str(s: &str) -> Result<Self, String> {
+        Ok(Self(s.to_owned()))
+    }
+}
+
 /// what the attributes are, as written below: (keyword, kind, text, fn id, mode, arg types, ret)
 pub struct Attr {
     pub kw: StepType,
@@ -59,11 +70,12 @@ pub const ATTRS: &[Attr] = &[
     /* 14 */ Attr { kw: StepType::Given, kind: "expr", text: "copy {string} to {string}", func: "copy", mode: "p", tys: "ss" },
     /* 15 */ Attr { kw: StepType::When, kind: "expr", text: "set {string} to {int}", func: "set", mode: "p", tys: "su" },
     /* 16 */ Attr { kw: StepType::Then, kind: "expr", text: "box {mp} has {int} items", func: "boxf", mode: "p", tys: "su" },
-    /* 17 (second World) */ Attr { kw: StepType::Given, kind: "lit", text: "a literal step", func: "other_world", mode: "p", tys: "" },
+    /* 17 */ Attr { kw: StepType::When, kind: "expr", text: "release {ver} now", func: "ver", mode: "p", tys: "s" },
+    /* 18 (second World) */ Attr { kw: StepType::Given, kind: "lit", text: "a literal step", func: "other_world", mode: "p", tys: "" },
 ];
 
 /// index of the second World's attribute (the last one)
-const W2: usize = 17;
+const W2: usize = 18;
 
 /// a `Result` spelled through aliases: the glue must still fail the step on `Err`
 pub type StepResult = Result<(), String>;
@@ -78,6 +90,7 @@ fn expr_probe(func: &str) -> (&'static str, &'static str) {
         "custom" => ("custom a1", "custom "),
         "copy" => ("copy \"a\" to 'b'", "copy "),
         "set" => ("set 'k' to 7", "set "),
+        "ver" => ("release 3.7 now", "release "),
         _ => ("box a1 has 3 items", "box "),
     }
 }
@@ -163,6 +176,11 @@ fn copy(w: &mut ZW, a: String, b: String) {
 #[when(expr = "set {string} to {int}")]
 fn set(w: &mut ZW, k: String, n: u32) {
     w.log.push(format!("set|{k}|{n}"));
+}
+
+#[when(expr = "release {ver} now")]
+fn ver(w: &mut ZW, v: Ver) {
+    w.log.push(format!("ver|{}", v.0));
 }
 
 #[then(expr = "box {mp} has {int} items")]
@@ -261,6 +279,7 @@ const TEXTS: &[&str] = &[
     "alias ok", "alias err", "alias no", "aalias ok", "aalias err",
     "copy \"a.txt\" to \"b.txt\"", "copy 'a' to 'b'", "copy \"\" to 'x'", "copy 'p q' to \"r\"", "copy a to b",
     "set 'k' to 7", "set \"k\" to 7", "set \"k\" to -7", "set \"\" to 0", "set k to 7",
+    "release 3.7 now", "release 10.0 now", "release 3. now", "release x.1 now", "release 12.345 now",
     "box a1 has 3 items", "box b2 has 3 items", "box b2 has -1 items", "box c3 has 3 items", "box a1 has x items",
 ];
 
